@@ -748,6 +748,14 @@ impl Drop for LoggedTx<'_> {
     }
 }
 
+/// The buffered state of a [`WriteTxn`] at one moment; see [`WriteTxn::savepoint`].
+pub struct TxnSavepoint {
+    created_nodes: usize,
+    pending_label_ops: usize,
+    created_external_ids: std::collections::HashSet<ExternalId>,
+    memtable: MemTable,
+}
+
 pub struct WriteTxn<'a> {
     engine: &'a GraphEngine,
     #[cfg(not(nervusdb_verif))]
@@ -785,6 +793,25 @@ impl<'a> WriteTxn<'a> {
         self.created_nodes
             .push((external_id, label_id, internal_id));
         Ok(internal_id)
+    }
+
+    /// Remembers the buffered writes so that a statement that fails half-way can be undone
+    /// with [`WriteTxn::rollback_to`] while the transaction stays usable.
+    pub fn savepoint(&self) -> TxnSavepoint {
+        TxnSavepoint {
+            created_nodes: self.created_nodes.len(),
+            pending_label_ops: self.pending_label_ops.len(),
+            created_external_ids: self.created_external_ids.clone(),
+            memtable: self.memtable.clone(),
+        }
+    }
+
+    /// Discards every write buffered since `savepoint` was taken.
+    pub fn rollback_to(&mut self, savepoint: TxnSavepoint) {
+        self.created_nodes.truncate(savepoint.created_nodes);
+        self.pending_label_ops.truncate(savepoint.pending_label_ops);
+        self.created_external_ids = savepoint.created_external_ids;
+        self.memtable = savepoint.memtable;
     }
 
     pub fn add_node_label(&mut self, node: InternalNodeId, label_id: LabelId) -> Result<()> {
